@@ -172,10 +172,10 @@ package lazy
 
 //@ trusted func (*DFA).SearchAt
 //@   requires d != nil && cache != nil && 0 <= at && at <= len(haystack)
-//@   modifies cache.*, cache.flatTrans[*], cache.stateList[*], family H:dfa/lazy.State
+//@   modifies @searchState
 //@   ensures result == dfaFwdEnd(d, haystack, at) && (result == -1 || (at <= result && result <= len(haystack)))
 
 //@ trusted func (*DFA).SearchReverse
 //@   requires d != nil && cache != nil && 0 <= start && start <= end && end <= len(haystack)
-//@   modifies cache.*, cache.flatTrans[*], cache.stateList[*], family H:dfa/lazy.State
+//@   modifies @searchState
 //@   ensures result == dfaRevStart(d, haystack, start, end) && (result == -1 || (start <= result && result <= end))
